@@ -49,7 +49,11 @@ impl Connection {
     pub fn execute(&self, sql: &str, params: [u8; 0]) -> (r: std::result::Result<usize, rusqlite::Error>) { unimplemented!() }
 }
 pub struct DailyMutations { x: u8 }
+/// the (room, entity, day) buckets a request marks for recomputation (what they are is decided in unit u5_marks)
+pub uninterp spec fn own_marks<T>(t: T) -> Set<int>;
 impl DailyMutations {
+    /// the buckets gathered so far
+    pub uninterp spec fn marks(&self) -> Set<int>;
     #[verifier::external_body]
     pub fn default() -> (r: DailyMutations) { unimplemented!() }
     #[verifier::external_body]
@@ -64,7 +68,9 @@ macro_rules! payload {
             #[verifier::external_body]
             pub fn write(&mut self, conn: &Connection) -> (r: std::result::Result<(), rusqlite::Error>) { unimplemented!() }
             #[verifier::external_body]
-            pub fn update_daily_logs(&self, daily_log: &mut DailyMutations) { unimplemented!() }
+            pub fn update_daily_logs(&self, daily_log: &mut DailyMutations)
+                ensures old(daily_log).marks().subset_of(final(daily_log).marks()), own_marks(*self).subset_of(final(daily_log).marks())
+            { unimplemented!() }
         }
         }
     };
@@ -80,7 +86,9 @@ impl DeletionQuery {
     #[verifier::external_body]
     pub fn delete(&mut self, conn: &Connection) -> (r: std::result::Result<(), rusqlite::Error>) { unimplemented!() }
     #[verifier::external_body]
-    pub fn update_daily_logs(&self, daily_log: &mut DailyMutations) { unimplemented!() }
+    pub fn update_daily_logs(&self, daily_log: &mut DailyMutations)
+        ensures old(daily_log).marks().subset_of(final(daily_log).marks()), own_marks(*self).subset_of(final(daily_log).marks())
+    { unimplemented!() }
 }
 pub struct Edge { x: u8 }
 impl Edge {
@@ -95,12 +103,16 @@ impl DailyLogsUpdate {
 pub struct EdgeDeletionEntry { x: u8 }
 impl EdgeDeletionEntry {
     #[verifier::external_body]
-    pub fn delete_all(edges: &mut Vec<EdgeDeletionEntry>, daily_log: &mut DailyMutations, conn: &Connection) -> (r: std::result::Result<(), rusqlite::Error>) { unimplemented!() }
+    pub fn delete_all(edges: &mut Vec<EdgeDeletionEntry>, daily_log: &mut DailyMutations, conn: &Connection) -> (r: std::result::Result<(), rusqlite::Error>)
+        ensures old(daily_log).marks().subset_of(final(daily_log).marks()), r is Ok ==> own_marks(*old(edges)).subset_of(final(daily_log).marks())
+    { unimplemented!() }
 }
 pub struct NodeDeletionEntry { x: u8 }
 impl NodeDeletionEntry {
     #[verifier::external_body]
-    pub fn delete_all(nodes: &mut Vec<NodeDeletionEntry>, daily_log: &mut DailyMutations, conn: &Connection) -> (r: std::result::Result<(), rusqlite::Error>) { unimplemented!() }
+    pub fn delete_all(nodes: &mut Vec<NodeDeletionEntry>, daily_log: &mut DailyMutations, conn: &Connection) -> (r: std::result::Result<(), rusqlite::Error>)
+        ensures old(daily_log).marks().subset_of(final(daily_log).marks()), r is Ok ==> own_marks(*old(nodes)).subset_of(final(daily_log).marks())
+    { unimplemented!() }
 }
 
 //@ extract src/database/sqlite_database.rs :: enum WriteMessage
@@ -120,6 +132,22 @@ pub struct Txn { pub open: bool, pub marks_written: bool, pub commits: nat, pub 
 //@ rewrite E17 "(?<=for edge in )edges(?= \{)" => "edges.iter_mut()" x1
 //@ insert body-start
         let ghost mut txn = Txn { open: false, marks_written: false, commits: 0, rollbacks: 0 };
+        let ghost mut needed: Set<int> = Set::empty();      // the buckets the requests of this batch have marked so far
+//@ insert-each after-stmt "query.update_daily_logs(&mut daily_log);"
+                    proof { needed = needed.union(own_marks(*query)); }
+//@ insert after-stmt "nti.update_daily_logs(&mut daily_log);"
+                        proof { needed = needed.union(own_marks(*nti)); }
+//@ insert before-stmt "if let Err(e) = EdgeDeletionEntry::delete_all(edges, &mut daily_log, conn) {"
+                    let ghost edges0 = *edges;
+//@ insert after-stmt "if let Err(e) = EdgeDeletionEntry::delete_all(edges, &mut daily_log, conn) {"
+                    proof { needed = needed.union(own_marks(edges0)); }
+//@ insert before-stmt "if let Err(e) = NodeDeletionEntry::delete_all(nodes, &mut daily_log, conn) {"
+                    let ghost nodes0 = *nodes;
+//@ insert after-stmt "if let Err(e) = NodeDeletionEntry::delete_all(nodes, &mut daily_log, conn) {"
+                    proof { needed = needed.union(own_marks(nodes0)); }
+//@ insert before-stmt "if let Err(e) = daily_log.write(conn) {"
+        // [every_mark_of_the_batch_is_written] the marks written with the transaction include the buckets marked by every request of the batch: nothing gathered earlier in the batch is dropped on the way
+        assert(needed.subset_of(daily_log.marks()));
 //@ insert after-stmt "conn.execute(\"BEGIN TRANSACTION\", [])"
         proof { txn = Txn { open: true, ..txn }; }
 //@ insert-each after-stmt "conn.execute(\"ROLLBACK\", [])"
@@ -143,11 +171,11 @@ pub struct Txn { pub open: bool, pub marks_written: bool, pub commits: nat, pub 
         // [ok_means_exactly_one_commit] success is reported only after exactly one COMMIT, with no transaction left open
         assert(!txn.open && txn.commits == 1 && txn.rollbacks == 0 && txn.marks_written);
 //@ loop "for query in buffer" iter itq
-            invariant txn.open && !txn.marks_written && txn.commits == 0 && txn.rollbacks == 0,
+            invariant txn.open && !txn.marks_written && txn.commits == 0 && txn.rollbacks == 0, needed.subset_of(daily_log.marks()),
 //@ loop "for nti in node" iter itn
-                        invariant txn.open && !txn.marks_written && txn.commits == 0 && txn.rollbacks == 0,
+                        invariant txn.open && !txn.marks_written && txn.commits == 0 && txn.rollbacks == 0, needed.subset_of(daily_log.marks()),
 //@ loop "for edge in edges" iter ite
-                        invariant txn.open && !txn.marks_written && txn.commits == 0 && txn.rollbacks == 0,
+                        invariant txn.open && !txn.marks_written && txn.commits == 0 && txn.rollbacks == 0, needed.subset_of(daily_log.marks()),
 //@ end
 
 /// the verdict of the batch as the writer thread sees it
